@@ -356,6 +356,93 @@ func genCborDec(g *G, tier string, emit func(string)) {
 		both(b)
 		both(b[:len(b)-1])
 	}
+	// (g) strings of every length around the reader's scratch buffer (32 bytes; twice that too), each followed by
+	// further items that are read through the same scratch space: a token handed out earlier must not change
+	for n := 0; n <= 70; n++ {
+		for _, major := range []byte{0x40, 0x60} {
+			str := bytes.Repeat([]byte{'a' + byte(n%26)}, n)
+			hd := []byte{major | byte(n)}
+			if n >= 24 {
+				hd = []byte{major | 24, byte(n)}
+			}
+			one := append(append([]byte{}, hd...), str...)
+			var item []byte
+			item = append(item, 0x84)
+			item = append(item, one...)
+			item = append(item, major|5, 'V', 'A', 'L', 'U', 'E', 0x19, 0x03, 0xe8)
+			item = append(item, one...)
+			both(item)
+			item = append([]byte{0xa2, 0x61, 'k'}, one...)
+			if major == 0x60 {
+				item = append(append(item, one...), 0xfb, 0x3f, 0xf8, 0, 0, 0, 0, 0, 1)
+			} else {
+				item = append(item, 0x61, 'f', 0xfb, 0x3f, 0xf8, 0, 0, 0, 0, 0, 1)
+			}
+			both(item)
+			item = append([]byte{0x9f, major | 31}, one...)
+			item = append(item, major|2, 'x', 'y', 0xff, 0x1a, 0, 1, 0, 0)
+			item = append(append(item, one...), 0xff)
+			both(item)
+		}
+	}
+	// (h) definite-length containers nested past every growth step of the decoder's bookkeeping (10, 20, 40 open
+	// containers), each level followed by a sibling, so that a lost count re-nests the item
+	for depth := 1; depth <= 45; depth++ {
+		for shape := 0; shape < 3; shape++ {
+			var item []byte
+			for d := 0; d < depth; d++ {
+				if shape == 0 || (shape == 2 && d%2 == 0) {
+					item = append(item, 0x82)
+				} else {
+					item = append(item, 0xa2, 0x61, 'n')
+				}
+			}
+			item = append(item, 0x80)
+			for d := depth - 1; d >= 0; d-- {
+				if shape == 0 || (shape == 2 && d%2 == 0) {
+					item = append(item, 0x18, byte(d))
+				} else {
+					item = append(item, 0x61, 's', 0x18, byte(d))
+				}
+			}
+			both(item)
+			both(append(append([]byte{}, item...), 0x01))
+			// one element per level (the shape of a lost decrement at the innermost level)
+			var lean []byte
+			for d := 0; d < depth; d++ {
+				lean = append(lean, 0x81)
+			}
+			lean = append(lean, 0x07)
+			both(lean)
+			both(append(lean, 0x07))
+		}
+	}
+	// (i) chunked strings: some bytes accumulated, then a chunk whose declared length lies about the rest —
+	// around the cap, around 2^31 / 2^32, and within the accumulated length of the largest int
+	for _, major := range []byte{0x40, 0x60} {
+		for _, acc := range []int{0, 1, 2, 5, 23, 31, 32, 33, 64} {
+			var ns []uint64
+			for _, base := range []uint64{33554432, 1 << 31, 1 << 32, 1 << 62, 1<<63 - 1} {
+				for _, d := range []int64{-int64(acc) - 1, -int64(acc), -int64(acc) + 1, -1, 0, 1} {
+					ns = append(ns, base+uint64(d))
+				}
+			}
+			for _, n := range ns {
+				item := []byte{major | 31}
+				if acc > 0 {
+					if acc < 24 {
+						item = append(item, major|byte(acc))
+					} else {
+						item = append(item, major|24, byte(acc))
+					}
+					item = append(item, bytes.Repeat([]byte{'a'}, acc)...)
+				}
+				item = append(item, major|27, byte(n>>56), byte(n>>48), byte(n>>40), byte(n>>32), byte(n>>24), byte(n>>16), byte(n>>8), byte(n))
+				both(item)
+				both(append(append([]byte{}, item...), 'x', 'y', 0xff))
+			}
+		}
+	}
 }
 
 func init() {
